@@ -49,6 +49,8 @@ type WScn struct {
 	Calls      []*WCall
 	Acts       []WAct
 	Beats      []time.Duration // other traffic at these times (heartbeat / location report alternating)
+	Burst       int            // answer the held commands in ONE socket write once this many command frames arrived
+	BurstDup    int            // ... each response this many times
 	CloseFrames int            // close after this many command frames were received and handled (0 = no)
 	CloseTime   time.Duration  // close at this time (0 = no)
 	RST         bool
@@ -107,6 +109,7 @@ type wrun struct {
 	sentResp map[uint16][]int64 // echo -> times a parsable response echoing it was written
 	beatTags []uint16
 	replied  []uint16 // tags of the 0x8001 replies received, in order
+	heldCmd  []PFrame
 	todo     int // scripted terminal actions not yet performed (first heartbeat, beats, delayed responses)
 	syncTag  int
 	syncCh   chan struct{}
@@ -235,7 +238,38 @@ func (r *wrun) handle(f PFrame) {
 		later(act.Delay, func() { r.sendResp(cmd, echo, false) })
 	case "bad":
 		r.sendResp(cmd, echo, true)
+	case "hold":
+		r.heldCmd = append(r.heldCmd, f)
 	case "never":
+	}
+	if r.sc.Burst > 0 && r.cmdN == r.sc.Burst && len(r.heldCmd) > 0 {
+		// every held command answered (BurstDup times) in one write: the reader gets them in one Read
+		var buf []byte
+		var toks []string
+		order := rand.New(rand.NewSource(r.sc.Seed)).Perm(len(r.heldCmd))
+		for d := 0; d < r.sc.BurstDup; d++ {
+			for _, j := range order {
+				hf := r.heldCmd[j]
+				typ := respTypeOf[hf.ID]
+				if typ == 0 || typ == 0x1003 {
+					typ = 0x0001
+				}
+				buf = append(buf, TFrame(typ, r.t.Phone, r.t.NextSerial(), RespBody(typ, hf.Serial, hf.ID))...)
+				toks = append(toks, fmt.Sprintf("r.%d.%d", typ, hf.Serial))
+			}
+		}
+		lo := r.us()
+		_, err := r.t.Conn.Write(buf)
+		hi := r.us()
+		if err == nil {
+			for _, tk := range toks {
+				r.T = append(r.T, fmt.Sprintf("T/s:%s/%d/%d", tk, lo, hi))
+			}
+			for _, hf := range r.heldCmd {
+				r.sentResp[hf.Serial] = append(r.sentResp[hf.Serial], hi)
+			}
+		}
+		r.heldCmd = nil
 	}
 	if r.sc.CloseFrames > 0 && r.cmdN == r.sc.CloseFrames {
 		r.doClose()
@@ -538,7 +572,7 @@ func (r *wrun) check(h *WHist) {
 
 // ---------------------------------------------------------------- scenario generators
 
-var WKinds = []string{"order", "late", "dup", "unknown", "bad", "never", "mixed", "attr", "notmo", "prejoin", "wrap",
+var WKinds = []string{"burst", "order", "late", "dup", "unknown", "bad", "never", "mixed", "attr", "notmo", "prejoin", "wrap",
 	"close-idle", "close-queued", "close-outstanding", "close-afterresp", "close-timer", "close-early", "rst-outstanding"}
 
 func ms(n int) time.Duration { return time.Duration(n) * time.Millisecond }
@@ -573,6 +607,15 @@ func GenW(kind string, seed int64) *WScn {
 			sc.Acts = append(sc.Acts, WAct{Kind: "delay", Delay: ms(rng.Intn(40))})
 		}
 		beats(rng.Intn(3), 40)
+	case "burst": // 5..8 commands outstanding, all answered (once or twice) in a single TCP segment
+		k = 5 + rng.Intn(4)
+		for i := 0; i < k; i++ {
+			c := mk(i, ms(600))
+			c.Start = ms(rng.Intn(3))
+			sc.Calls = append(sc.Calls, c)
+			sc.Acts = append(sc.Acts, WAct{Kind: "hold"})
+		}
+		sc.Burst, sc.BurstDup = k, 1+rng.Intn(2)
 	case "late": // answered after the timeout
 		for i := 0; i < k; i++ {
 			t := to()
